@@ -42,4 +42,5 @@ MCJumpDestsOK == Loaded(JumpDestsOK)
 MCMemBound == Loaded(MemBound)
 MCOutputOnlyAtEnd == Loaded(OutputOnlyAtEnd)
 MCStaticNoWrite == Loaded(StaticNoWrite)
+MCScanAgrees == Loaded(ScanAgrees)
 =============================================================================
